@@ -330,6 +330,32 @@ func c20Calls(thorough bool) []jcall {
 			}
 		}
 	}
+	// other spellings of a genuine code: a sign or blank for a leading zero, a leading zero dropped, letters for digits,
+	// other digit scripts - a validator that reads the code as a NUMBER accepts some of them
+	for _, d := range []string{"6", "8"} {
+		dn := refDigits(d)
+		for _, al := range []string{"SHA1", "SHA256", "SHA512"} {
+			an := refAlgo(al)
+			found := 0
+			for c := uint64(0); c < 400 && found < 3; c++ {
+				code := ref.HOTP(c20Key, c, dn, an)
+				if code[0] != '0' {
+					continue
+				}
+				found++
+				rest := code[1:]
+				fw := ""
+				for _, ch := range code {
+					fw += string(rune(0xFF10 + ch - '0'))
+				}
+				for _, sub := range []string{"+" + rest, "-" + rest, " " + rest, rest, rest + " ", "0" + code, "+" + code, code + ".0", "0x" + rest[1:], "O" + rest, fw, code[:len(code)-1] + "e", "1e" + rest[1:]} {
+					add("code-spellings", "validateHOTP", u, sub, c, d, al, 1)
+					st := int64(c) * 30
+					add("code-spellings", "validateTOTP", u, sub, st+7, d, al, 1, 30)
+				}
+			}
+		}
+	}
 	// windows beyond the documented maximum (and far beyond): refused with 'error:' by both validators, never a verdict
 	for _, sk := range []any{11, 12, 100, 255, 256, 65536, 1000000, uint64(1) << 32, uint64(1) << 53} {
 		for _, al := range []string{"SHA1", "SHA512"} {
